@@ -1,6 +1,7 @@
 pub mod abnf;
 pub mod dfa;
 pub mod domains;
+pub mod equiv;
 pub mod pathlist;
 pub mod pathops;
 pub mod resolve;
